@@ -146,5 +146,7 @@ def rule_drain(ctx):
 def run(ctx):
     ctx.guarded("C12.rel", rule_rel, ctx)
     ctx.guarded("C12.drain", rule_drain, ctx)
+    from .c18 import rule_prim
+    ctx.guarded("C12.order", rule_prim, ctx, "C12.order", ("detached",))
     from . import c12_order
     c12_order.run(ctx)
